@@ -209,25 +209,64 @@ func (e *executor) resolve(st *State, v *Val) *Val {
 	if v == nil || v.Ite == nil || st.known == nil {
 		return v
 	}
-	return e.resolveRec(st, v, 0)
+	// results are valid for one known-list (persistent, so pointer identity
+	// identifies its content)
+	if e.resolveFor != st.known {
+		e.resolveFor = st.known
+		e.resolveMemo = map[*Val]*Val{}
+		e.condMemo = map[string]int8{}
+	}
+	budget := 4000
+	return e.resolveRec(st, v, &budget)
 }
 
-func (e *executor) resolveRec(st *State, v *Val, depth int) *Val {
-	if v.Ite == nil || depth > 64 {
-		return v
+func (e *executor) condKnown(st *State, c string) (bool, bool) {
+	if r, ok := e.condMemo[c]; ok {
+		return r == 1, r != 0
 	}
-	if b, ok := e.knownVal(st, v.Ite.C.S, 0); ok {
+	b, ok := e.knownVal(st, c, 0)
+	var r int8
+	if ok {
+		r = 2
 		if b {
-			return e.resolveRec(st, v.Ite.A, depth+1)
+			r = 1
 		}
-		return e.resolveRec(st, v.Ite.B, depth+1)
 	}
-	a := e.resolveRec(st, v.Ite.A, depth+1)
-	b := e.resolveRec(st, v.Ite.B, depth+1)
-	if a == v.Ite.A && b == v.Ite.B {
+	e.condMemo[c] = r
+	return b, ok
+}
+
+func (e *executor) resolveRec(st *State, v *Val, budget *int) *Val {
+	if v.Ite == nil {
 		return v
 	}
-	return e.mergeVal(v.Ite.C, a, b)
+	if r, ok := e.resolveMemo[v]; ok {
+		return r
+	}
+	*budget--
+	if *budget < 0 {
+		return v
+	}
+	var out *Val
+	if b, ok := e.condKnown(st, v.Ite.C.S); ok {
+		if b {
+			out = e.resolveRec(st, v.Ite.A, budget)
+		} else {
+			out = e.resolveRec(st, v.Ite.B, budget)
+		}
+	} else {
+		a := e.resolveRec(st, v.Ite.A, budget)
+		b := e.resolveRec(st, v.Ite.B, budget)
+		if a == v.Ite.A && b == v.Ite.B {
+			out = v
+		} else {
+			out = e.mergeVal(v.Ite.C, a, b)
+		}
+	}
+	if *budget >= 0 {
+		e.resolveMemo[v] = out
+	}
+	return out
 }
 
 // constLeaves reports whether v is a tree of ites with literal leaves (at
